@@ -38,6 +38,13 @@ pub fn maybe_notify() {
     }
 }
 
+/// Wake the driver if it is waiting (whatever it waits for).
+pub fn notify_if_waiting() {
+    if rec::with(|r| r.driver_waiting) {
+        notify();
+    }
+}
+
 /// Unconditional wake-up (used by producer tasks when they finish a phase).
 pub fn notify() {
     if let Some(p) = pair() {
